@@ -157,8 +157,12 @@ def check(ctx):
                 # strings used as token types: arguments of _expect/_accept, comparison operands, set members, case patterns
                 if isinstance(par, (ast.Compare, ast.Set, ast.MatchValue)) or (isinstance(par, ast.Call) and isinstance(par.func, ast.Attribute) and par.func.attr in ("_expect", "_accept")):
                     tested.add(n.value)
+    def tokenish(x):
+        return isinstance(x, str) and x.isupper() and len(x) > 1 and x.replace("_", "").isalnum()
     for k, v in t.parser_sets.items():
-        tested |= set(v) if not isinstance(v, dict) else set(v.keys())
+        # module-level tables of the parser whose members have the shape of token types (other tables, e.g. suffix letter -> type name, are not
+        # token tables)
+        tested |= {x for x in (v if not isinstance(v, dict) else v.keys()) if tokenish(x)}
     for tt in sorted(tested):
         ok = tt in emittable
         ctx.oblige("R-C01.2", f"parser token type {tt}", ok, nontrivial=False)
